@@ -1,9 +1,9 @@
 SPECIFICATION Spec
 CONSTANTS
-  OptSet <- OptsPlain
-  CallSet <- SingleCalls
-  ChangeSet <- MoveChanges
-  MaxCalls = 1
+  OptSet <- OptsOne
+  CallSet <- PoolCalls
+  ChangeSet <- PoolChanges
+  MaxCalls = 2
   MaxChanges = 1
   MaxGen = 3
   MaxAtt = 3
@@ -14,15 +14,15 @@ CONSTANTS
   BugTxNoMulti = FALSE
   BugPredIgnored = FALSE
   BugNodeOrder = FALSE
-  BugMovedIgnored = TRUE
+  BugMovedIgnored = FALSE
   BugMaxOffByOne = FALSE
   BugSelClamp = FALSE
   BugRefreshDropsInit = FALSE
   BugAskRunNoInit = FALSE
-  BugPoolStale = FALSE
+  BugPoolStale = TRUE
   BugStreamKeyless = FALSE
   BugPromoteReplica = FALSE
-INVARIANTS TypeOK RedirectFollowed
+INVARIANTS TypeOK BatchOrder
 CONSTRAINT GenBound
 VIEW MCView
 CHECK_DEADLOCK FALSE
